@@ -457,13 +457,13 @@ function observe(src, seed, opts, names, timeoutMs = TIMEOUT_MS) {
   const lexNames = names.filter((n) => /^[A-Za-z_$][\w$]*$/.test(n) && !RESERVED.has(n));
   let vals = null;
   try {
-    vals = new vm.Script(lexScriptSource(lexNames)).runInContext(w.ctx, { timeout: TIMEOUT_MS })(TDZ);
+    vals = new vm.Script(lexScriptSource(lexNames)).runInContext(w.ctx, { timeout: 25 * TIMEOUT_MS })(TDZ);
   } catch { vals = null; }
   for (let i = 0; i < lexNames.length; i++) {
     let v;
     if (vals) v = vals[i];
     else {
-      try { v = new vm.Script(lexScriptSource([lexNames[i]])).runInContext(w.ctx, { timeout: TIMEOUT_MS })(TDZ)[0]; } catch { continue; }
+      try { v = new vm.Script(lexScriptSource([lexNames[i]])).runInContext(w.ctx, { timeout: 25 * TIMEOUT_MS })(TDZ)[0]; } catch { continue; }
     }
     lex[lexNames[i]] = v === TDZ ? tagged('$tdz', 1) : w.desc.d(v);
   }
